@@ -11,9 +11,18 @@ def moves_receiver(b):
     return any(o["op"] == "send" and any(s["k"] == "R" for s in o.get("slots", [])) for o in b["ops"])
 
 
+# an endpoint (or a region) travels in a message that is drained through a set and thrown away undeserialised: it must die
+# with the message - the peer sees the disconnection / the broken pipe; exhaustive after the prescribed prelude
+DISCARD_STORY = ["new", "setnew", "setadd", "send", "setdrain", "*"]
+DISCARD = {"name": "story-discard", "variant": "os", "mode": "thread",
+           "gen": dict(agents=(0,), maxch=2, maxreg=1, maxslots=1, maxsets=1, maxops=len(DISCARD_STORY), regionlens=(2,),
+                       story=DISCARD_STORY, discard=True)}
+
+
 def plans(tier):
     if tier == "quick":
         return [
+            DISCARD,
             {"name": "bfs-slots2", "variant": "os", "mode": "thread",
              "gen": dict(agents=(0,), maxch=2, maxreg=1, maxslots=2, maxops=3, regionlens=(2,)), "filter": nontrivial},
             {"name": "bfs-chain-process", "variant": "os", "mode": "process",
@@ -23,6 +32,7 @@ def plans(tier):
                          regionlens=(1, 4), kinds=("typed", "bytes"), simulate=30, depth=120, tlcseed=chancheck.seed())},
         ]
     return [
+        DISCARD, dict(DISCARD, name="story-discard-memfd", variant="memfd"),
         {"name": "bfs-slots1-d4", "variant": "os", "mode": "thread",
          "gen": dict(agents=(0,), maxch=2, maxreg=1, maxslots=1, maxops=4, regionlens=(2,)), "filter": nontrivial},
         {"name": "bfs-chain-process-d4", "variant": "os", "mode": "process",
